@@ -21,6 +21,7 @@ struct nv_vec
   uint64_t grad_of;   /* ghost: identity of the point whose (sub-)gradient this vector holds, 0 if unknown */
 };
 /* ghost records of the ellipsoid stopping test (used by C03; see specs/C03) */
+const void* nv_obj;                    /* ghost: identity of the function whose values the prophecy field `fval` holds (the one to minimise) */
 struct nv_rec { double arg, res; uint64_t at; };
 struct nv_rec nv_sqrt_rec, nv_dot_rec;
 
@@ -119,7 +120,7 @@ static int64_t nv_fn_size(const struct nv_function* f) { int64_t n = nv_nondet_i
 /* ---- contract of the bodies (property C02) ---- */
 double nv_f0;                          /* ghost: the value at the starting point */
 #define NV_NONLS_REQUIRES \
-__CPROVER_requires(NV_SOLVER_PARAMS_OK && nv_ver_counter == 0 && nv_gcount == 0 && __CPROVER_is_fresh(self, sizeof(*self)) && __CPROVER_is_fresh(function, sizeof(*function))) \
+__CPROVER_requires(NV_SOLVER_PARAMS_OK && nv_ver_counter == 0 && nv_gcount == 0 && __CPROVER_is_fresh(self, sizeof(*self)) && __CPROVER_is_fresh(function, sizeof(*function)) && nv_obj == (const void*)function) \
 /* "every starting point with a finite value" */ \
 __CPROVER_requires(__CPROVER_is_fresh(x0, sizeof(*x0)) && x0->id != 0 && x0->fin && NV_ISFIN(x0->fval) && NV_SAME(nv_f0, x0->fval))
 #define NV_COUNTS2_OK(s) ((s).m_fcalls >= 0 && (uint64_t)(s).m_fcalls <= nv_ver_counter && (s).m_gcalls >= 0 && (uint64_t)(s).m_gcalls <= nv_gcount)
@@ -289,7 +290,7 @@ static _Bool nv_state_update_x(struct nv_state* s, const struct nv_vec* x)
 {
   nv_ver_counter = nv_ver_counter + 1; nv_gcount = nv_gcount + 1;
   s->ver = x->id; s->xfin = x->fin; s->eval_ver = s->ver;
-  if (s->m_function == (const void*)&nv_objective) { s->m_fx = x->fval; s->fx_ver = s->ver; }
+  if (s->m_function == nv_obj) { s->m_fx = x->fval; s->fx_ver = s->ver; }
   else { s->m_fx = nv_nondet_double(); s->fx_ver = 0; }
   s->valid = nv_nondet__Bool(); __CPROVER_assume(!s->valid || (NV_ISFIN(s->m_fx) && s->xfin));
   s->gtest = nv_nondet_double();
@@ -303,7 +304,7 @@ static double nv_param_penalty0(void) { return nv_nondet_double(); }
 static int64_t nv_param_max_outer_iters(void) { int64_t p = nv_nondet_int64_t(); __CPROVER_assume(10 <= p && p <= 100); return p; }
 #define NV_PEN_STATE(s) ((s).ver != 0 && (s).m_function == (const void*)&nv_objective && NV_CONS_FULL(s) && NV_COUNTS2_OK(s))
 #define NV_CONTRACT_penalty_minimize \
-__CPROVER_requires(NV_SOLVER_PARAMS_OK && nv_ver_counter == 0 && nv_gcount == 0 && __CPROVER_is_fresh(self, sizeof(*self)) && __CPROVER_is_fresh(penalty_function, sizeof(*penalty_function))) \
+__CPROVER_requires(NV_SOLVER_PARAMS_OK && nv_ver_counter == 0 && nv_gcount == 0 && __CPROVER_is_fresh(self, sizeof(*self)) && __CPROVER_is_fresh(penalty_function, sizeof(*penalty_function)) && nv_obj == (const void*)&nv_objective) \
 __CPROVER_requires(__CPROVER_is_fresh(x0, sizeof(*x0)) && x0->id != 0 && x0->fin && NV_ISFIN(x0->fval)) \
 __CPROVER_assigns(nv_ver_counter, nv_gcount) \
 __CPROVER_ensures(NV_STATUS_OK(NV_RET.m_status)) \
@@ -315,4 +316,50 @@ __CPROVER_assigns(outer, penalty, solver, bstate, nv_ver_counter, nv_gcount) \
 __CPROVER_loop_invariant(0 <= outer && outer <= max_outers && NV_PEN_STATE(bstate) && bstate.m_status == NVE_solver_status_max_iters && NV_ISFIN(bstate.m_fx) && bstate.xfin) \
 __CPROVER_loop_invariant(0 <= outer && 1 <= nv_ver_counter && nv_gcount <= nv_ver_counter && nv_ver_counter <= 1 + (uint64_t)outer * 3000000001u) \
 __CPROVER_decreases(max_outers - outer)
+
+/* ---- gradient sampling solvers gs / ags / gs-lbfgs / ags-lbfgs: base_solver_gs_t<sampler, preconditioner>::do_minimize and the
+ * perturbed line search gsample::lsearch_t::step (src/solver/gsample/lsearch.h).  The state moves only by state.update(x). */
+struct nv_gs_lsearch { double m_beta, m_gamma; int64_t m_max_iters; struct nv_opaque m_perturbation; };
+/* lsearch_t{n, solver, basename}: parameters copied; <basename>lsearch_max_iters has the domain (0, 100] */
+static struct nv_gs_lsearch nv_gs_lsearch_make(void)
+{ struct nv_gs_lsearch l; l.m_beta = nv_nondet_double(); l.m_gamma = nv_nondet_double(); l.m_max_iters = nv_nondet_int64_t(); __CPROVER_assume(1 <= l.m_max_iters && l.m_max_iters <= 100); return l; }
+/* sampler.sample(state, epsilon): evaluates the function (value and gradient) at the sampled points: at least one, at most 2n */
+static void nv_gs_sample(void)
+{ uint64_t k = nv_nondet_uint64_t(); __CPROVER_assume(1 <= k && k <= 2000000u); nv_ver_counter = nv_ver_counter + k; nv_gcount = nv_gcount + k; }
+static struct nv_function* nv_state_function(const struct nv_state* s) { return (struct nv_function*)s->m_function; }
+static double nv_param_miu0(void) { return nv_nondet_double(); }
+static double nv_param_epsilon0(void);
+static double nv_param_theta_miu(void) { return nv_nondet_double(); }
+static double nv_param_theta_epsilon(void) { return nv_nondet_double(); }
+/* (the last conjunct is the contract of solver_state_t::valid(), specs/C02/state.h: valid => finite value and point) */
+#define NV_GS_STATE(s) ((s).ver != 0 && (s).m_function == nv_obj && NV_CONS_FULL(s) && NV_COUNTS2_OK(s) && (!(s).valid || (NV_ISFIN((s).m_fx) && (s).xfin)))
+#define NV_CONTRACT_gs_lsearch_step \
+__CPROVER_requires(__CPROVER_is_fresh(self, sizeof(*self)) && __CPROVER_is_fresh(x, sizeof(*x)) && __CPROVER_is_fresh(g, sizeof(*g)) && __CPROVER_is_fresh(state, sizeof(*state)) \
+  && __CPROVER_is_fresh(H, sizeof(*H)) && __CPROVER_is_fresh(state->m_function, sizeof(struct nv_function)) \
+  && 1 <= self->m_max_iters && self->m_max_iters <= 100 && NV_GS_STATE(*state) && nv_gcount <= nv_ver_counter && nv_ver_counter < 2000000000u) \
+__CPROVER_assigns(*x, *state, nv_ver_counter, nv_gcount) \
+__CPROVER_ensures(NV_GS_STATE(*state) && state->m_status == __CPROVER_old(state->m_status)) \
+/* the state is either untouched or the evaluation at the (new) point x */ \
+__CPROVER_ensures((state->ver == __CPROVER_old(state->ver) && NV_SAME(state->m_fx, __CPROVER_old(state->m_fx)) && state->xfin == __CPROVER_old(state->xfin) && state->valid == __CPROVER_old(state->valid)) || state->ver == x->id) \
+__CPROVER_ensures(nv_ver_counter > __CPROVER_old(nv_ver_counter) && nv_ver_counter - __CPROVER_old(nv_ver_counter) <= 102 && nv_gcount >= __CPROVER_old(nv_gcount) && nv_gcount <= __CPROVER_old(nv_gcount) + 1 && nv_gcount <= nv_ver_counter)
+#define NV_GS_STEP_LOOP \
+__CPROVER_assigns(iters, t, fx, *x, nv_ver_counter) \
+__CPROVER_loop_invariant(0 <= iters && iters <= self->m_max_iters && nv_ver_counter == __CPROVER_loop_entry(nv_ver_counter) + (uint64_t)iters) \
+__CPROVER_decreases(self->m_max_iters - iters)
+#define NV_LOOP_gs_lsearch_step_1 NV_GS_STEP_LOOP
+#define NV_LOOP_gs_lsearch_step_2 NV_GS_STEP_LOOP
+/* do_minimize: the claims of NV_NONLS_ENSURES except f <= f0 (the state moves by state.update after an Armijo-like test: numerics) */
+#define NV_CONTRACT_gs_do_minimize NV_NONLS_REQUIRES NV_NONLS_ASSIGNS \
+__CPROVER_ensures(NV_STATUS_OK(NV_RET.m_status)) \
+__CPROVER_ensures(NV_GS_STATE(NV_RET)) \
+/* "unless the status is failed the returned point and value are finite".  REFUTED on the library as it is (genuine defect, \
+ * replay/C02_gs_replay.cpp): lsearch_t::step moves the state to a trial point accepted by `fx < state.fx() - t * df` (true for \
+ * fx = -inf); when the budget test then ends the loop the state is returned with status max_iters without a valid() test */ \
+__CPROVER_ensures(NV_RET.m_status != NVE_solver_status_failed ==> (NV_ISFIN(NV_RET.m_fx) && NV_RET.xfin)) \
+__CPROVER_ensures(nv_gcount <= nv_ver_counter && nv_ver_counter < 2000000000u && nv_ver_counter + nv_gcount < (uint64_t)nv_max_evals + 2 * 2000000u + 104)
+#define NV_LOOP_gs_do_minimize_1 \
+__CPROVER_assigns(x, g, miuk, epsilonk, state, nv_ver_counter, nv_gcount) \
+__CPROVER_loop_invariant(NV_GS_STATE(state) && state.m_status == NVE_solver_status_max_iters) \
+__CPROVER_loop_invariant(1 <= nv_ver_counter && nv_gcount <= nv_ver_counter && nv_ver_counter < 2000000000u && nv_ver_counter + nv_gcount < (uint64_t)nv_max_evals + 2 * 2000000u + 104) \
+__CPROVER_decreases((uint64_t)nv_max_evals + 5000000u - nv_ver_counter - nv_gcount)
 #endif
